@@ -221,7 +221,9 @@ def build(spec, env):
         _, pa, base, _s = spec
         m = rand_mant(r, r.choice([pa, 20, 64, pa + 64])) * r.choice([1, -1]); e = r.choice([0, -m.bit_length(), -m.bit_length() // 2, r.randint(-400, 400)])
         ca, a = fcmd('F1', pa, m, e)
-        carried = int((64 * (plimbs(pa) - 1)) * math.log(2) / math.log(abs(base)))
+        # digits the precision carries: with p = 64*(prec limbs - 1) bits a correct conversion is only accurate to about 2^(2-p) relative, which is
+        # one unit of the n-th digit only while base^n <= 2^(p-2) (a value with leading digit base-1 is the worst case)
+        carried = max(1, int((64 * (plimbs(pa) - 1) - 2) * math.log(2) / math.log(abs(base))))
         nd = r.choice([0, 1, 2, 5, max(1, carried // 2), max(1, carried - 1), max(1, carried)])
         cmds = [ca, 'c mpf_get_str 0 & #%d #%d F1' % (base, nd)]
         def check(rep, a=a, nd=nd, base=base):
